@@ -53,6 +53,8 @@ struct TC {
   TC(TC &&o) noexcept : v(o.v), chk(o.chk) {}
   TC &operator=(const TC &o) { tick(); v = o.v; chk = o.chk; return *this; }
   TC &operator=(TC &&o) noexcept { v = o.v; chk = o.chk; return *this; }
+  // a destroyed element is recognisably dead: a copy made FROM it afterwards decodes as corrupt (-1)
+  ~TC() { v = 0xdeadbeefu; chk = 0; }
 };
 int TC::countdown = 0;
 template <> struct Enc<TC> {
@@ -483,6 +485,30 @@ struct H {
       if (ws[i].kind != KOA) return "pre";
       size_t n = std::stoul(arg(2));
       ws[i].oa->resize(n, Enc<T>::enc((unsigned)std::stoul(arg(3))));
+      epoch[i] = ++clock;
+      return "ok";
+    }
+    if (op == "oa_reset_throw") {
+      // reset(ptr, n) (assignment from a range) while the k-th element copy throws, k = 1, 2, ... until it goes through:
+      // every failed attempt must leave the array as it was
+      if (!idx(arg(1), NW, i)) return "bad-op";
+      if (ws[i].kind != KOA) return "pre";
+      Src s = resolve(arg(2));
+      if (!s.ok) return "pre";
+      if (CopyArm<T>::can()) {
+        for (int k = 1; k <= 64; k++) {
+          std::string before = obs(i);
+          bool threw = false;
+          CopyArm<T>::set(k);
+          try { ws[i].oa->reset(s.ptr, s.cnt); } catch (const std::runtime_error &) { threw = true; }
+          CopyArm<T>::set(0);
+          if (!threw) { epoch[i] = ++clock; return "ok"; }
+          std::string after = obs(i);
+          if (after != before) return "changed by the reset that threw at copy " + std::to_string(k) + ": " + after;
+        }
+        return "still throwing";
+      }
+      ws[i].oa->reset(s.ptr, s.cnt);
       epoch[i] = ++clock;
       return "ok";
     }
